@@ -64,6 +64,7 @@ func runC06(c *Ctx) {
 			end := PCall("store.InclusiveEndBytes", -1, nil, PCall("pt.ConsumerAddrsToPruneV2Key", -1, nil, PParam("consumerId"), PParam("ts")))
 			c.Check(start(arg(it, 0)), fk(f, "range-start"), it, "range start = length-delimited prefix of this consumer; found "+describe(arg(it, 0)))
 			c.Check(end(arg(it, 1)), fk(f, "range-end"), it, "range end = InclusiveEndBytes(key(consumerId, ts)); found "+describe(arg(it, 1)))
+			c.KeyShapeIs("pt.ConsumerAddrsToPruneV2Key", "Const(ConsumerAddrsToPruneV2Key)·Len8(param:consumerId)·Raw(param:consumerId)·Time(param:pruneTs)", "the range [consumer prefix, key(consumer, ts)] selects exactly the entries due at ts")
 		}
 		late := ABool("pruneTs.After(ts)", PCall("time.Time.After", -1, PCall("pt.ParseStringIdAndTsKey", 1, nil), PParam("ts")))
 		n := 0
